@@ -14,7 +14,7 @@ Theorem C14_injection_changes_only_its_root : forall p s r m, m <> r -> st (inje
 Proof. exact inject_other. Qed.
 Print Assumptions C14_injection_changes_only_its_root.
 
-(* Injected code runs once: in EVERY run with any injections at any ticks, an instruction outside Alarm bodies -- a method
+(* Injected code runs once: in EVERY run with any injections at any ticks, an instruction outside Alarm and Macro bodies -- a method
    line or a line of a snippet -- that has started stays started and one that has completed stays completed: its `started`
    flag rises at most once, it never runs a second time. *)
 Theorem C14_lines_run_at_most_once_with_injections : forall p ts main s now m,
